@@ -25,8 +25,8 @@ RULE = (
     "[-40, 4]) and output kernels scaled by 0 / 1 / 30. Non-trivial = batch shape other than (2,), or action dim "
     ">= 2, or a clipped log-variance (softmax: batch shape other than (2,) or extreme logits). greedy: non-trivial "
     "= the queried Q row is not constant. eps_freq / *_freq: every case is a frequency experiment over >= 2000 draws. "
-    "dqn_runs / tabular_runs: non-trivial = at least 30 steps after the epsilon-decay phase (DQN family) / at "
-    "least 30 steps (tabular). Distinct = distinct canonical case."
+    "run_<dqn variant>: 1000-1200 steps, warm-up 0/10/25/40 % of the budget, non-trivial = at least 100 steps after "
+    "warm-up and epsilon-decay phase; run_<tabular>: three runs per case (epsilon 0, 1, intermediate). Distinct = distinct canonical case."
 )
 ASSUMPTIONS = [
     "float32 arithmetic; references in float64 from the float32 network outputs; log-density tolerances scale with "
@@ -506,9 +506,13 @@ def dqn_run_cases(algo):
     def cases(draw):
         return {
             "algo": algo, "n_actions": draw(st.sampled_from([2, 3])),
-            "total": draw(st.sampled_from([100, 120])), "seed": draw(st.integers(0, 1000)),
+            # 1000+ steps: the documented decay phase (10 %) and the window of the same length that
+            # follows the warm-up hold >= 100 steps each, so a shifted / restarted / mis-scaled schedule
+            # is many sigma away from the exact tails
+            "total": draw(st.sampled_from([1000, 1200])), "seed": draw(st.integers(0, 1000)),
             "script": _script(draw), "env_seed": draw(gen.seeds()), "space_seed": draw(gen.seeds()),
-            "learning_starts": 0 if algo == "dqn" else draw(st.sampled_from([0, 0, 7])),
+            # warm-up of 0 / 10 / 25 / 40 % of the budget (in thousandths of the budget)
+            "learning_starts_permille": 0 if algo == "dqn" else draw(st.sampled_from([250, 100, 400, 0])),
             "lr": draw(st.sampled_from([0.0, 0.05, 0.05, 0.05])), "q_seed": draw(gen.seeds()),
             "update_frequency": draw(st.sampled_from([1, 1, 4])),
             "target_update_frequency": draw(st.sampled_from([1000, 1000, 5])),
@@ -522,12 +526,12 @@ def dqn_run_cases(algo):
 def _simplify_dqn(case):
     if case["lr"] != 0.0:
         yield dict(case, lr=0.0)
-    if case["learning_starts"]:
-        yield dict(case, learning_starts=0)
+    if case["learning_starts_permille"] not in (0, 100):
+        yield dict(case, learning_starts_permille=100)
     if len(case["script"]) > 1:
         yield dict(case, script=case["script"][:1])
-    if case["total"] > 100:
-        yield dict(case, total=100)
+    if case["total"] > 1000:
+        yield dict(case, total=1000)
 
 
 def documented_epsilon(total, learning_starts):
@@ -550,6 +554,7 @@ def run_dqn_runs(case):
     from vlib.envs import ScriptedEnv
 
     na, total, algo = case["n_actions"], case["total"], case["algo"]
+    L = (case["learning_starts_permille"] * total) // 1000
     q_net = pn.make_mlp(3, na, [4], case["q_seed"], "tanh")  # tanh: no dead units, ties are improbable
     if algo == "dqn":
         q_target = None
@@ -596,7 +601,7 @@ def run_dqn_runs(case):
         train_dqn(q_net, env, ReplayBuffer(50, discrete_actions=True), opt, **kw)
     else:
         kw.update(update_frequency=case["update_frequency"], target_update_frequency=case["target_update_frequency"],
-                  learning_starts=case["learning_starts"], q_target_net=q_target)
+                  learning_starts=L, q_target_net=q_target)
         if algo == "nature_dqn":
             from rl_blox.algorithm.nature_dqn import train_nature_dqn
 
@@ -613,7 +618,7 @@ def run_dqn_runs(case):
     if n != total:
         # step accounting is C11's subject; the exploration oracle needs the step index of every action
         return Outcome(labels=[algo, "excluded-step-count-differs"], nontrivial=False)
-    eps, tail_from = documented_epsilon(total, case["learning_starts"])
+    eps, tail_from = documented_epsilon(total, L)
     explored_a = np.asarray(explored)
     # (a) per step: unless the loop asked the action space for a random action, the executed action
     #     maximises the live Q-network at the observation the agent was given
@@ -623,15 +628,20 @@ def run_dqn_runs(case):
                   f"(lr={case['lr']}, target_update_frequency={case['target_update_frequency']})")
     check(bool(np.all(explored_a <= 1)), f"{algo}.exploration.at_most_one_random_draw_per_step",
           lambda: f"{explored_a.max()} random draws in one step")
-    # (b) number of exploration decisions against the documented schedule (exact Poisson-binomial tails)
-    lo_e, hi_e = binomtail.interval(eps, 1e-9)
-    k_e = int((explored_a > 0).sum())
-    check(lo_e <= k_e <= hi_e, f"{algo}.exploration.random_action_count_matches_schedule",
-          lambda: f"{k_e} random actions in {total} steps; documented schedule admits [{lo_e},{hi_e}]")
-    hi_et = binomtail.upper_bound(eps[tail_from:], 1e-9)
-    k_et = int((explored_a[tail_from:] > 0).sum())
-    check(k_et <= hi_et, f"{algo}.exploration.random_action_count_after_decay_within_schedule",
-          lambda: f"{k_et} random actions in the {total - tail_from} steps after the decay phase; at most {hi_et} admissible")
+    # (b) number of exploration decisions against the documented schedule, window by window (exact
+    #     Poisson-binomial tails, 1e-9 split over the windows): the warm-up, the rest of the decay phase,
+    #     the stretch of the same length that follows warm-up and decay (where a restarted or shifted
+    #     decay would show), and the constant tail
+    k_dec = int(total * 0.1)
+    cuts = sorted({0, L, min(max(k_dec, L), total), min(max(k_dec, L) + k_dec, total), total})
+    windows = [(a, b) for a, b in zip(cuts[:-1], cuts[1:]) if b > a] + [(0, total)]
+    for a, b in windows:
+        lo_e, hi_e = binomtail.interval(eps[a:b], 1e-9 / len(windows))
+        k_e = int((explored_a[a:b] > 0).sum())
+        clause = "warmup_steps_are_all_random" if b <= L else "random_action_count_matches_schedule"
+        check(lo_e <= k_e <= hi_e, f"{algo}.exploration.{clause}",
+              lambda: f"{k_e} random actions in steps [{a},{b}) of {total} (learning_starts={L}, decay over the first "
+                      f"{k_dec} steps): the documented schedule admits [{lo_e},{hi_e}]")
     # a uniformly random action is non-greedy with probability 1 - (number of maximisers) / n_actions
     ps = eps * (1.0 - np.asarray(n_max, dtype=np.float64) / na)
     flags_a = np.asarray(flags)
@@ -647,11 +657,11 @@ def run_dqn_runs(case):
     check(k_all >= lo_all, f"{algo}.exploration.nongreedy_total_not_below_schedule",
           lambda: f"{k_all} non-greedy actions in {total} steps, admissible at least {lo_all}")
     labels = [algo, "lr=0" if case["lr"] == 0 else "lr>0", f"lower-bound={'>0' if lo_all > 0 else '0'}",
-              "warmup" if case["learning_starts"] else "no-warmup"]
+              f"warmup={case['learning_starts_permille'] // 10}%"]
     labels.append("ties-seen" if max(n_max) > 1 else "unique-maximiser")
     if disagree:
         labels.append("target-greedy-differs-somewhere" if any(disagree[tail_from:]) else "target-greedy-same")
-    return Outcome(labels=labels, nontrivial=(total - tail_from) >= 30, fp=case)
+    return Outcome(labels=labels, nontrivial=(total - tail_from) >= 100, fp=case)
 
 
 EPS_TOTALS = {"zero": 40, "one": 40, "mid": 300}
@@ -754,7 +764,7 @@ def _run_subchecks():
     for algo in ["dqn", "nature_dqn", "ddqn", "ddqn_per"]:
         out.append(SubCheck("run_" + algo, dqn_run_cases(algo), run_dqn_runs, quick=4, thorough=60, cost=10.0,
                             shards=2, shards_thorough=4, shrink=False, suppress_too_slow=True, simplify=_simplify_dqn,
-                            rule=">= 30 steps after the epsilon-decay phase"))
+                            rule=">= 100 steps after warm-up and epsilon-decay phase"))
     for algo in ["q_learning", "sarsa", "double_q", "dynaq", "monte_carlo"]:
         out.append(SubCheck("run_" + algo, tabular_run_cases(algo), run_tabular_runs, quick=3, thorough=60, cost=9.0,
                             shards=1, shards_thorough=4, shrink=False, suppress_too_slow=True,
